@@ -1313,7 +1313,11 @@ pub struct DirectVariableIdentifier {
 
 impl Located for DirectVariableIdentifier {
     fn span(&self) -> SourceSpan {
-        self.span.clone()
+        // A located variable that has a name is where its name is written
+        match &self.name {
+            Some(name) => name.span(),
+            None => self.span.clone(),
+        }
     }
 }
 
